@@ -45,7 +45,8 @@ def verify(d):
                            shell=True, capture_output=True, text=True)
         out["suite"] = t.stdout.strip()
         out["ok"] = (out["demo_unchanged_exit"] == 0 and out["demo_changed_exit"] != 0 and ap.returncode == 0
-                     and "446 passed" in out["suite"] and "failed" not in out["suite"])
+                     and "446 passed" in out["suite"] and " failed" not in out["suite"]
+                     and " error" not in out["suite"])
     finally:
         sh("git -C /repo worktree remove --force %s" % wt)
         shutil.rmtree(wt, ignore_errors=True)
